@@ -98,8 +98,19 @@ def run(ctx):
     core.lean_phase(ctx)
     rng = ctx.rng
     reqs, metas = [], []
+
+    def flush():
+        outs = ctx.driver.run(reqs) if reqs else []
+        for req, meta, out in zip(reqs, metas, outs):
+            ctx.count("model_requests")
+            if out.get("ok", out) != meta[1]:
+                ctx.mismatch("diff", meta[0], meta[1], out)
+        del reqs[:], metas[:]
+
     fam = schemas.family()
     for si in range(ctx.budget(10, 40)):
+        if len(reqs) >= 15000:
+            flush()     # keep memory bounded in long runs
         info = fam[si % len(fam)] if si < len(fam) or rng.random() < 0.6 else schemas.random_schema(rng)
         schema = info.schema
         docs = [gen.gen_doc(rng, schema, budget=rng.choice([6, 12, 25])) for _ in range(ctx.budget(8, 16))]
@@ -142,11 +153,7 @@ def run(ctx):
                               "find_diff_end does not terminate with the positions after which the sequences agree", r)
             reqs.append({"op": "diff", "a": info.frag(a.content), "b": info.frag(b.content)})
             metas.append((replay, [got_s if st == "ok" else "ERR", [got_e["a"], got_e["b"]] if (st2 == "ok" and got_e) else (None if st2 == "ok" else "ERR")]))
-    outs = ctx.driver.run(reqs) if reqs else []
-    for req, meta, out in zip(reqs, metas, outs):
-        ctx.count("model_requests")
-        if out.get("ok", out) != meta[1]:
-            ctx.mismatch("diff", meta[0], meta[1], out)
+    flush()
     return ctx.finish(
         rule="a case is an ordered pair of documents of one schema: a document with itself (same object), with a "
              "JSON-rebuilt equal copy, with the result of a random edit of it (sharing nodes by identity; both orders), "
